@@ -54,6 +54,19 @@ func ruleDeadlinePropagation(c *Ctx) {
 				}
 			}
 			want, known := deadlineTable[name]
+			if !known {
+				// a helper that only reviewed functions of one provenance class call is part of them
+				var seeds []string
+				for tn, tc := range deadlineTable {
+					if tc == class {
+						seeds = append(seeds, tn)
+					}
+				}
+				if len(seeds) > 0 && c.calledOnlyFrom(seeds...)[fn.Obj] {
+					c.ok(key, call.Pos(), true, "deadline provenance %s, in a helper called only from reviewed functions of that provenance", class)
+					return true
+				}
+			}
 			switch {
 			case !known:
 				c.bad(key, call.Pos(), "new object.New site in %s (deadline %s) is not in the reviewed deadline-propagation table: decide whether the stored object keeps, moves or drops its deadline", name, class)
